@@ -1,13 +1,115 @@
 /- Driver for the kbucket engine (ops whose name starts with `k`). -/
 import Driver.Common
+import Discv5Model.Model.Closest
+import Discv5Model.Model.IpFilter
 namespace Discv5.Driver
+open Discv5.KB
 
 structure KbucketSt where
-  dummy : Unit := ()
+  cfg : Cfg Val := { maxIncoming := 16, pendingTimeout := 0, bucketFilter := fun _ _ => true,
+                     tableFilter := fun _ _ => true }
+  table : Table Val := Table.init 0
+  now : Nat := 0
 
-/-- One op of the kbucket engine: full token list (op name first) → new state and reply line. -/
+def keyOf (s : String) : Nat := beNat (hex! s)
+
+def showKey (k : Nat) : String := toHex (beBytes 32 k)
+
+/-- `v<id>:<subnet|->` -/
+def parseVal (s : String) : Val :=
+  match fields s with
+  | [id, sub] => { id := nat! (id.drop 1).toString, subnet := if sub == "-" then none else some (nat! sub) }
+  | _ => { id := 0, subnet := none }
+
+def showFail : Fail → String
+  | .tooManyIncoming => "too-many-incoming" | .bucketFilter => "bucket-filter"
+  | .tableFilter => "table-filter" | .keyNonExistent => "no-key" | .bucketFull => "bucket-full"
+  | .invalidSelfUpdate => "self"
+
+def showUpd : UpdateRes → String
+  | .updated => "updated" | .updatedAndPromoted => "promoted" | .updatedPending => "updated-pending"
+  | .failed r => s!"failed:{showFail r}" | .notModified => "not-modified" | .panic => "panic"
+
+def showIns : TInsertRes → String
+  | .inserted => "inserted" | .pending d => s!"pending:{showKey d}"
+  | .statusUpdated p => s!"status-updated:{p}" | .valueUpdated => "value-updated"
+  | .updated p => s!"updated:{p}" | .updatedPending => "updated-pending"
+  | .failed r => s!"failed:{showFail r}" | .panic => "panic"
+
+def showNode (n : Node Val) : String :=
+  s!"{showKey n.key}/{if n.st.conn then "c" else "d"}/{if n.st.incoming then "i" else "o"}/v{n.value.id}"
+
+def dump (t : Table Val) : String :=
+  let parts := (List.range numBuckets).filterMap fun i =>
+    let b := t.bucket i
+    if b.nodes.isEmpty && b.pending.isNone then none else
+    let p := match b.pending with
+      | some p => s!"{showKey p.node.key}/{if p.node.st.conn then "c" else "d"}/{if p.node.st.incoming then "i" else "o"}/v{p.node.value.id}"
+      | none => "-"
+    some s!"{i}:[{",".intercalate (b.nodes.map showNode)}]nc={b.numConnected}/p={p}"
+  if parts.isEmpty then "empty" else " ".intercalate parts
+
+def parseBoolOpt (s : String) : Option Bool :=
+  if s == "c" || s == "i" then some true else if s == "d" || s == "o" then some false else none
+
 def kbucketStep (st : KbucketSt) (toks : List String) : KbucketSt × String :=
   match toks with
+  | ["knew", loc, pendingMs, maxIn, tf, bf] =>
+    let cfg : Cfg Val := {
+      maxIncoming := nat! maxIn, pendingTimeout := nat! pendingMs,
+      bucketFilter := if bf == "ip" then ipBucketFilter else fun _ _ => true,
+      tableFilter := if tf == "ip" then ipTableFilter else fun _ _ => true }
+    ({ cfg := cfg, table := Table.init (keyOf loc), now := 0 }, "ok")
+  | ["ksleep", ms] => ({ st with now := st.now + nat! ms }, "ok")
+  | ["kins", key, val, conn, dir] =>
+    let (t, r) := st.table.insertOrUpdate st.cfg st.now (keyOf key) (parseVal val)
+      { conn := conn == "c", incoming := dir == "i" }
+    ({ st with table := t }, showIns r)
+  | ["kupd", key, val, state] =>
+    let (t, r) := st.table.updateNode st.cfg st.now (keyOf key) (parseVal val) (parseBoolOpt state)
+    ({ st with table := t }, showUpd r)
+  | ["kstatus", key, state, dir] =>
+    let (t, r) := st.table.updateNodeStatus st.cfg st.now (keyOf key) (state == "c") (parseBoolOpt dir)
+    ({ st with table := t }, showUpd r)
+  | ["krm", key] =>
+    let (t, r) := st.table.remove st.cfg st.now (keyOf key)
+    ({ st with table := t }, s!"{r}")
+  | ["kentry", key] =>
+    let t := st.table.entryTouch st.cfg st.now (keyOf key)
+    let k := keyOf key
+    let r := match bucketIndex t.localKey k with
+      | none => "self"
+      | some i =>
+        let b := t.bucket i
+        match b.nodes.find? (fun n => n.key == k) with
+        | some n => s!"present:{showNode n}"
+        | none => match b.pending with
+          | some p => if p.node.key == k then s!"pending:v{p.node.value.id}" else "absent"
+          | none => "absent"
+    ({ st with table := t }, r)
+  | ["kiter"] =>
+    let t := st.table.applyAll st.cfg st.now
+    ({ st with table := t }, ",".intercalate (t.allNodes.map fun n => showKey n.key) |> fun s => if s.isEmpty then "-" else s)
+  | ["kclosest", target] =>
+    let (t, ns) := st.table.closest st.cfg st.now (keyOf target)
+    let s := ",".intercalate (ns.map fun n => showKey n.key)
+    ({ st with table := t }, if s.isEmpty then "-" else s)
+  | ["kclosestp", target, m] =>
+    let (t, ns) := st.table.closestPred st.cfg st.now (keyOf target) (fun v => v.id % (nat! m) == 0)
+    let s := ",".intercalate (ns.map fun (n, f) => s!"{showKey n.key}/{f}")
+    ({ st with table := t }, if s.isEmpty then "-" else s)
+  | ["kbydist", ds, maxN] =>
+    let dl := if ds == "-" then [] else (ds.splitOn ",").map nat!
+    let (t, ns) := st.table.nodesByDistances st.cfg st.now dl (nat! maxN)
+    let s := ",".intercalate (ns.map fun n => showKey n.key)
+    ({ st with table := t }, if s.isEmpty then "-" else s)
+  | ["ktake"] =>
+    let (t, a) := st.table.takeApplied
+    let r := match a with
+      | none => "none"
+      | some a => s!"{showKey a.inserted}/{match a.evicted with | some e => showKey e | none => "-"}"
+    ({ st with table := t }, r)
+  | ["kdump"] => (st, dump st.table)
   | _ => (st, "bad-op")
 
 end Discv5.Driver
